@@ -360,3 +360,143 @@ def stress(draw, heavy=False):
         L.append("op rep %d oput Q0 1" % n)
         L.append("op rep %d oget Q0" % draw(st.sampled_from([1, n - 1, n])))
     return "\n".join(L) + "\n"
+
+
+@st.composite
+def coincide(draw):
+    """Several causes for the same process on the same simulated instant, by construction.
+
+    One or two *waiters* arm a timeout that expires at instant d and enter a blocking call; a
+    *holder* keeps the awaited thing unavailable until about d; 1-4 *actors* (dispatcher commands and
+    processes that hold until d) act exactly at d with generated priorities: grant what is awaited,
+    cancel / remove / signal the condition, interrupt, stop, resume, reprioritise, end the awaited
+    process, execute or cancel the awaited event. What the waiter does afterwards (a hold, another
+    wait) is where a stale wake-up would show.
+    """
+    d = draw(st.sampled_from([0.0, 0.5, 1.0, 1.0, 2.0]))
+    L = ["mode sim", "start 0", "res R0", "pool P0 2", "buf B0 2", "oq Q0 1", "pq K0 1", "cond C0"]
+    for g in draw(st.lists(st.sampled_from(["R0", "P0", "B0.front", "B0.rear", "Q0.front", "K0.front"]),
+                           max_size=2, unique=True)):
+        L.append("observe C0 %s" % g)
+    kind = draw(st.sampled_from(["cwait", "cwait", "acquire", "pacq", "bget", "bput", "oget", "oput", "kget",
+                                 "kput", "wait_proc", "wait_ev", "hold", "yield"]))
+    nwait = draw(st.integers(1, 2))
+    # the holder (p0) makes the awaited thing unavailable and keeps it so until d
+    hold_ops = {"acquire": ["acquire R0"], "pacq": ["pacq P0 2"], "bput": ["bput B0 2"], "oput": ["oput Q0 7"],
+                "kput": ["kput K0 7 0"], "wait_ev": ["usched %s 0" % fhex(d)], "cwait": ["acquire R0", "pacq P0 1"]}
+    free_ops = {"acquire": ["release R0"], "pacq": ["prel P0 %d" % draw(st.integers(1, 2))],
+                "bput": ["bget B0 %d" % draw(st.integers(1, 2))], "oput": ["oget Q0"], "kput": ["kget K0"],
+                "bget": ["bput B0 %d" % draw(st.integers(1, 2))], "oget": ["oput Q0 3"], "kget": ["kput K0 3 1"],
+                "cwait": ["ctrset 0 1", "csignal C0"], "wait_ev": [], "wait_proc": [], "hold": [], "yield": []}
+    L.append("proc p0 prio %s start 0 sprio 0" % draw(PRIOS))
+    for o in hold_ops.get(kind, []):
+        L.append("op " + o)
+    L.append("op hold %s" % fhex(d))
+    for o in free_ops.get(kind, []):
+        if draw(st.integers(0, 3)) > 0:
+            L.append("op " + o)
+    if kind == "cwait" and draw(st.booleans()):
+        L.append("op release R0")
+    L.append(draw(st.sampled_from(["op hold 0x0p0", "op return 4", "op exit 5", "op hold 0x1p1"])))
+    wait_op = {"cwait": draw(st.sampled_from(["cwait C0 ctr 0 1", "cwait C0 resfree R0 0", "cwait C0 poolavail P0 2",
+                                              "cwait C0 false 0 0"])),
+               "acquire": draw(st.sampled_from(["acquire R0", "preempt R0"])), "pacq": "pacq P0 %d" % draw(st.integers(1, 2)),
+               "bget": "bget B0 %d" % draw(st.integers(1, 3)), "bput": "bput B0 %d" % draw(st.integers(1, 3)),
+               "oget": "oget Q0", "oput": "oput Q0 1", "kget": "kget K0", "kput": "kput K0 1 0",
+               "wait_proc": "wait_proc p0", "wait_ev": "wait_ev 0", "hold": "hold %s" % fhex(d + 1.0), "yield": "yield"}[kind]
+    after = ["hold 0x1p1", "hold 0x0p0", "yield", "cwait C0 false 0 0", "acquire R0", "oget Q0", "wait_proc p0",
+             "timer_add 0x1p0 4", "return 3"]
+    for w in range(1, nwait + 1):
+        L.append("proc p%d prio %s start 0 sprio 0" % (w, draw(PRIOS)))
+        if draw(st.integers(0, 4)) > 0:
+            L.append("op timer_add %s %d" % (fhex(d), draw(st.sampled_from(TIMER_SIGS))))
+        L.append("op " + wait_op)
+        for _ in range(draw(st.integers(1, 3))):
+            L.append("op " + draw(st.sampled_from(after)))
+    nproc = nwait + 1
+    # actors at exactly d
+    acts = ["interrupt p1 %d %s" % (draw(st.sampled_from(USER_SIGS)), draw(PRIOS)), "stop p1 3", "setprio p1 %s" % draw(PRIOS),
+            "ccancel C0 p1", "cremove C0 p1", "csignal C0", "ctrset 0 1", "resume p1 %d" % draw(st.sampled_from([0, 5])),
+            "stop p0 2", "ucancel 0", "kcancel K0 0", "interrupt p0 9 0"]
+    if nwait > 1:
+        acts += ["interrupt p2 -2 %s" % draw(PRIOS), "ccancel C0 p2", "stop p2 1", "setprio p2 %s" % draw(PRIOS)]
+    for _ in range(draw(st.integers(1, 4))):
+        a = draw(st.sampled_from(acts))
+        if draw(st.booleans()):
+            L.append("at %s %s %s" % (fhex(d), draw(PRIOS), a))
+        else:
+            L.append("proc p%d prio %s start 0 sprio 0" % (nproc, draw(PRIOS)))
+            L.append("op hold %s" % fhex(d))
+            L.append("op " + a)
+            if draw(st.booleans()):
+                L.append("op " + draw(st.sampled_from(acts)))
+            nproc += 1
+    return "\n".join(L) + "\n"
+
+
+@st.composite
+def crowd(draw):
+    """Several waiters of one kind on one object and a feeder that, in ONE slice, performs a burst of
+    operations each of which can serve a waiter (releases, puts, gets, cancels of different handles),
+    optionally while some of the waiters leave by timeout / interrupt in that same instant."""
+    kind = draw(st.sampled_from(["res", "pool", "bget", "bput", "oget", "oput", "kget", "kput", "kput"]))
+    n = draw(st.integers(2, 5))
+    t1 = draw(st.sampled_from([0.5, 1.0, 1.0]))
+    cap = draw(st.integers(1, 4))
+    L = ["mode sim", "start 0"]
+    L += {"res": ["res R0"], "pool": ["pool P0 %d" % cap], "bget": ["buf B0 %d" % cap], "bput": ["buf B0 %d" % cap],
+          "oget": ["oq Q0 %d" % cap], "oput": ["oq Q0 %d" % cap], "kget": ["pq K0 %d" % cap], "kput": ["pq K0 %d" % cap]}[kind]
+    # the feeder first makes the object unavailable, waits until t1, then serves in a burst
+    L.append("proc p0 prio %s start 0 sprio 0" % draw(st.sampled_from([3, 0, -1])))
+    pre = {"res": ["acquire R0"], "pool": ["pacq P0 %d" % cap], "bput": ["bput B0 %d" % cap],
+           "oput": ["oput Q0 %d" % (i + 1) for i in range(cap)], "kput": ["kput K0 %d %d" % (i + 1, i % 2) for i in range(cap)]}
+    for o in pre.get(kind, []):
+        L.append("op " + o)
+    L.append("op hold %s" % fhex(t1))
+    burst = []
+    k = draw(st.integers(1, 4))
+    if kind == "res":
+        burst = ["release R0"]
+    elif kind == "pool":
+        left = cap
+        for _ in range(k):
+            if left > 0:
+                a = draw(st.integers(1, left))
+                burst.append("prel P0 %d" % a)
+                left -= a
+    elif kind == "bget":
+        burst = ["bput B0 %d" % draw(st.integers(1, cap)) for _ in range(k)]
+    elif kind == "bput":
+        burst = ["bget B0 %d" % draw(st.integers(1, cap)) for _ in range(k)]
+    elif kind == "oget":
+        burst = ["oput Q0 %d" % (10 + i) for i in range(min(k, cap))]
+    elif kind == "oput":
+        burst = ["oget Q0" for _ in range(min(k, cap))]
+    elif kind == "kget":
+        burst = ["kput K0 %d %s" % (10 + i, draw(st.sampled_from([0, 1, -1]))) for i in range(min(k, cap))]
+    else:
+        refs = draw(st.permutations(list(range(cap))))
+        for i in range(min(k, cap)):
+            burst.append(draw(st.sampled_from(["kcancel K0 %d" % refs[i], "kcancel K0 %d" % refs[i], "kget K0"])))
+    for o in burst:
+        L.append("op " + o)
+    L.append(draw(st.sampled_from(["op hold 0x1p1", "op return 1", "op hold 0x0p0"])))
+    wop = {"res": "acquire R0", "pool": None, "bget": None, "bput": None, "oget": "oget Q0", "oput": "oput Q0 9",
+           "kget": "kget K0", "kput": "kput K0 9 0"}[kind]
+    for w in range(1, n + 1):
+        L.append("proc p%d prio %s start %s sprio 0" % (w, draw(st.sampled_from([0, 0, 1, -1])),
+                                                        fhex(draw(st.sampled_from([0.0, 0.0, 0.5])))))
+        if draw(st.integers(0, 3)) == 0:
+            L.append("op timer_add %s -5" % fhex(draw(st.sampled_from([t1, t1, 2.0]))))
+        if kind == "pool":
+            L.append("op pacq P0 %d" % draw(st.integers(1, cap)))
+        elif kind in ("bget", "bput"):
+            L.append("op %s B0 %d" % (kind, draw(st.integers(1, cap + 1))))
+        else:
+            L.append("op " + wop)
+        L.append(draw(st.sampled_from(["op hold 0x0p0", "op hold 0x1p0", "op return 2"])))
+    for _ in range(draw(st.integers(0, 2))):
+        cmd = draw(st.sampled_from(["interrupt", "interrupt", "stop", "setprio"]))
+        arg = {"interrupt": "-2 %s" % draw(PRIOS), "stop": "3", "setprio": str(draw(st.sampled_from([2, -2, 0])))}[cmd]
+        L.append("at %s %s %s p%d %s" % (fhex(t1), draw(PRIOS), cmd, draw(st.integers(1, n)), arg))
+    return "\n".join(L) + "\n"
